@@ -55,6 +55,12 @@ def gen_graph(rng, gid):
                 props.append({"name": p, "type": rng.choice(("int", "bool", "QString", "int", "NoSuchType%d" % rng.randrange(2))), "read": p,
                               "constant": False, "designable": True, "final": False, "required": False,
                               "scriptable": True, "stored": True, "user": False})
+                # the other things moc may say about a property: it stays a declared property
+                if rng.random() < 0.3:
+                    props[-1].update(rng.choice(({"privateClass": name + "Private"}, {"constant": True}, {"final": True}, {"designable": False},
+                                                 {"scriptable": False}, {"stored": False}, {"user": True}, {"required": True}, {"revision": 2},
+                                                 {"member": "m_" + p}, {"reset": "reset_" + p}, {"index": 3},
+                                                 {"write": "set_" + p, "notify": p + "Changed", "bindable": "bindable_" + p})))
         meths = {"signals": [], "slots": [], "methods": []}
         for m in METH_POOL:
             if rng.random() < 0.2:
@@ -85,7 +91,7 @@ def gen_graph(rng, gid):
     subjects = names + (["TopEnum"] if top_enums else []) + ["Nope"]
     # the descriptions reach the module in one extend() call or in several (one metatypes file after the other)
     return {"id": "g%d" % gid, "style": style, "classes": classes, "enums": top_enums, "subjects": subjects,
-            "batches": rng.choice((1, 1, 2, 3, len(classes))),
+            "batches": rng.choice((1, 1, 2, 3, len(classes))), "tweak": rng.random() < 0.5,
             "property_names": PROP_POOL + ["absent"], "method_names": METH_POOL + ["absent"],
             "type_names": ENUM_POOL + ["Absent"], "variant_names": VAR_POOL + ["VX"]}
 
